@@ -132,12 +132,17 @@ func (w *c08World) addBlock(blk module.Block, comment string) error {
 }
 
 // c08NewWorld builds the chain. nBlocks is the number of blocks above genesis.
-func c08NewWorld(nBlocks int) (*c08World, error) {
+func c08NewWorld(nBlocks int) (w_ *c08World, err_ error) {
 	const dsa = "ecdsa/secp256k1"
 	w := &c08World{byID: map[string]*c08Block{}}
 	w.fx = blkfx.New(4, 1)
 	w.nd = w.fx.Nodes[0]
 	c08Bases.Store(w.nd.Base, true)
+	defer func() {
+		if err_ != nil {
+			w.close() // do not leave the node's temporary directory behind
+		}
+	}()
 	bdf, err := block.NewBlockDataFactory(w.nd.Chain, nil)
 	if err != nil {
 		return nil, err
